@@ -553,10 +553,15 @@ def forward_signatures(func, calls, args, kwargs, sig):
 
 def autoforwards_partial(par, args, kwargs):
     sig = autoforwards(par.func, par.args, {})
-    return _signatures._mask(
-        sig, len(par.args),
-        False, False, False, False,
-        par.keywords or {}, par)
+    try:
+        return _signatures._mask(
+            sig, len(par.args),
+            False, False, False, False,
+            par.keywords or {}, par)
+    except ValueError:
+        # what was discovered cannot take what the partial binds: it
+        # says nothing usable about this partial object
+        raise UnknownForwards
 
 
 def any_params_star(sig):
@@ -637,9 +642,14 @@ def autoforwards_ast(func, func_ast, sig, args=(), kwargs={}):
 def autoforwards_method(method, args, kwargs):
     if method.__self__ is None:
         raise UnknownForwards
-    return _signatures.mask(
-        autoforwards(method.__func__, (method.__self__,) + tuple(args), kwargs),
-        1)
+    sig = autoforwards(
+        method.__func__, (method.__self__,) + tuple(args), kwargs)
+    try:
+        return _signatures.mask(sig, 1)
+    except ValueError:
+        # what was discovered has no room for the instance: it says nothing
+        # usable about the bound method
+        raise UnknownForwards
 
 
 def autoforwards(obj, args=(), kwargs={}):
